@@ -62,7 +62,7 @@ def _settings(draw):
     if draw(st.booleans()):
         s["PRINT_FLOAT_PRECISION"] = draw(st.integers(0, 12))
     if draw(st.booleans()):
-        s["PRINT_THOUSAND_SEPARATOR"] = draw(st.sampled_from(["", ",", " "]))
+        s["PRINT_THOUSAND_SEPARATOR"] = draw(st.sampled_from(["", ",", " ", "'", ".", "_", "\u202f", "\u2009"]))
     if draw(st.integers(0, 3)) == 0:
         s["PRINT_TRUNCATE_WIDTH"] = draw(st.sampled_from([2, 5, 36, 100]))
     if draw(st.integers(0, 3)) == 0:
@@ -92,6 +92,7 @@ def _plan(draw, big):
         plan["frame"] = {"n": n, "cols": cols}
         if cls == "geojson":
             plan["geometry"] = [draw(st.sampled_from([None, "Point", "Polygon", "MultiLineString"])) for _ in range(n)]
+            plan["geometry_at"] = draw(st.integers(0, k))          # position of the geometry column among the others
         plan["opts"] = {"max_rows": draw(st.sampled_from(OPT)), "max_width": draw(st.sampled_from(OPT + [30, 60])),
                         "truncate_width": draw(st.sampled_from(OPT))}
     elif cls == "vector":
@@ -251,12 +252,12 @@ def check(plan, ctx):
     if cls in ("frame", "geojson"):
         data = build.frame(plan["frame"], rid=None)
         if cls == "geojson":
-            cols = dict(data)
             g = np.empty(plan["frame"]["n"], dtype=object)
             for j, t in enumerate(plan["geometry"]):
                 g[j] = None if t is None else {"type": t, "coordinates": [j, j]}
-            cols["geometry"] = g.view(di.DataFrameColumn)
-            data = di.GeoJSON(cols)
+            items = list(dict.items(data))
+            items.insert(min(plan.get("geometry_at", len(items)), len(items)), ("geometry", g.view(di.DataFrameColumn)))
+            data = di.GeoJSON(dict(items))
             if plan["frame"]["n"] and "geometry" not in data:
                 raise RuntimeError("builder: geometry column missing")
         before = build.snap_frame(data)
